@@ -31,7 +31,7 @@ RULE = (
 )
 ASSUMPTIONS = [
     "the calculators are deterministic functions of the configuration (harness calculators)",
-    "PCG64 accepts any non-negative integer seed; seeds tested: 0, 1, 2**32-1, 2**63 and seeds derived from VERIF_SEED",
+    "PCG64 accepts any non-negative integer seed; seeds tested: 0, 1, 2**32-1, 2**63, 2**64+1 (pairs that collide under a 32-, 63- or 64-bit truncation) and seeds derived from VERIF_SEED",
 ]
 REQUIRED = {"twin_runs_compared": 55, "fresh_process_twins": 6, "seed0_runs": 15, "steps_compared": 1400, "distinct_seed_pairs": 20, "tripwire_armed": 1}
 SHARD_TIMEOUT = {"quick": 900, "thorough": 3000}
@@ -188,7 +188,7 @@ def run(spec):
     rec = Rec(spec["name"])
     rec.count("tripwire_armed")
     w, steps = spec["w"], spec["steps"]
-    seeds = [0, 1, 2**32 - 1, 2**63, derive_seed("c06", spec["seed"], spec["name"])]
+    seeds = [0, 1, 2**32 - 1, 2**63, 2**64 + 1, derive_seed("c06", spec["seed"], spec["name"])]
     if spec.get("nseeds"):
         seeds = [0, derive_seed("c06", spec["seed"], spec["name"])][: spec["nseeds"]]
     at5 = {}
